@@ -152,6 +152,14 @@ func (g *Gen) run() {
 		g.assumeRaw(fmt.Sprintf("(not (= %s 0))", t.S))
 		g.assumeAllocated(t.S, fv.Type())
 	}
+	// captured variables are distinct Go variables: their cells are pairwise distinct
+	if len(fn.FreeVars) > 1 {
+		var fvs []string
+		for _, fv := range fn.FreeVars {
+			fvs = append(fvs, g.term(fv).S)
+		}
+		g.assumeRaw("(distinct " + strings.Join(fvs, " ") + ")")
+	}
 	// contract: requires are assumptions at entry
 	entry := copyState(g.cur)
 	g.entryState = entry
@@ -315,8 +323,8 @@ func (g *Gen) autoInvs(h *ssa.BasicBlock) []autoInv {
 		if !ok {
 			break
 		}
-		if b, ok := phi.Type().Underlying().(*types.Basic); !ok || b.Info()&types.IsInteger == 0 {
-			continue
+		if b, ok := phi.Type().Underlying().(*types.Basic); !ok || b.Info()&types.IsInteger == 0 || b.Info()&types.IsUnsigned != 0 {
+			continue // unsigned counters wrap: monotonicity is not an invariant the engine may propose
 		}
 		var inits []ssa.Value
 		dir := 0
